@@ -10,7 +10,7 @@ from spec/store/GenTS.tla.
 import vlib
 from vlib import SPEC
 from checks import c09
-MANIFEST = {'level': 'fault_enumeration', 'design': '3 (C11)', 'technique': 'TLA+ spec (Track.tla) with a fault parameter; TLC enumerates every fault position, cases replayed into real tracks and the real store', 'text': "Exhaustive enumeration by TLC of every (destination shape, source shape, class list, history flag, failing callback invocation) for Track::merge and every add_observation variant (thorough: two-merge sequences), with C11 asserted on the specification's operators; each case is applied to real tracks whose callbacks fail exactly there and the five mutable parts plus the notification count are compared; the store-level part replays the TrackStore behaviours with faults.", 'note': 'Trusted: TLC; faults are injected only through the user callbacks (apply / attribute merge / optimise); shapes have 0..2 observations in up to 3 classes.'}
+MANIFEST = {'level': 'fault_enumeration', 'design': '3 (C11)', 'technique': 'TLA+ spec (Track.tla) with a fault parameter; TLC enumerates every fault position, cases replayed into real tracks and the real store', 'text': "Exhaustive enumeration by TLC of every (destination shape, source shape, class list, history flag, failing callback invocation) for Track::merge and every add_observation variant (thorough: two-merge sequences), with C11 asserted on the specification's operators; each case is applied to real tracks whose callbacks fail exactly there and the five mutable parts plus the notification count are compared; the store-level part replays the TrackStore behaviours with faults - every two-operation sequence from the empty store and from a store that already holds two tracks (successful and failing owned merges, both history flags, both tracks after a failed owned merge).", 'note': 'Trusted: TLC; faults are injected only through the user callbacks (apply / attribute merge / optimise); shapes have 0..2 observations in up to 3 classes.'}
 LEVEL = "fault_enumeration"
 S = SPEC / "store"
 RULE = ("cases = every (dst shape over 3 classes with 0..2 observations, src shape, class list without repetition, "
